@@ -220,6 +220,19 @@ func (s *Synchronizer) OnRemoteTimeout(timeout hotstuff.TimeoutMsg) {
 		s.logger.Infof("View timeout signature could not be verified: %v", err)
 		return
 	}
+	if s.config.HasAggregateQC() {
+		// the message must be able to become part of an aggregate certificate: it needs the sender's
+		// high QC and the sender's signature over the message, otherwise one such message would
+		// invalidate the aggregate certificate built from the whole quorum.
+		if _, ok := timeout.SyncInfo.QC(); !ok || !signedOnlyBy(timeout.MsgSignature, timeout.ID) {
+			s.logger.Infof("Timeout message from %d cannot be aggregated: missing QC or message signature", timeout.ID)
+			return
+		}
+		if err := s.auth.Verify(timeout.MsgSignature, timeout.ToBytes()); err != nil {
+			s.logger.Infof("Timeout message signature could not be verified: %v", err)
+			return
+		}
+	}
 	s.logger.Debug("OnRemoteTimeout (advancing view): ", timeout)
 	s.advanceView(timeout.SyncInfo)
 
